@@ -10,12 +10,17 @@ const GRID9: [f32; 9] = [0.0, 0.125, 0.25, 0.375, 0.5, 0.625, 0.75, 0.875, 1.0];
 /// Positions closer together than one percent (and than one f32 step of common quantisations).
 const DENSE9: [f32; 9] = [0.0, 0.125, 0.126, 0.129, 0.131, 0.5, 0.501, 0.999, 1.0];
 
+/// Positions outside the documented [0,1] range (the builder accepts them without complaint): whatever
+/// the library makes of them must still not depend on the insertion order.
+const OUT9: [f32; 9] = [-0.5, 0.0, 0.25, 0.5, 0.75, 1.0, 1.25, 1.5, 3.0];
+
 #[derive(Default)]
 struct Acc {
     sink: VSink,
     timelines: u64,
     evals: u64,
     perms_differing_order: u64,
+    skipped_base_panics: u64,
     samples: Vec<Value>,
     outcomes: std::collections::HashSet<u64>,
 }
@@ -166,6 +171,12 @@ pub fn run(run: Run) -> ! {
             for pat in 0..(npat / 2).max(2) {
                 items.push((s.clone(), 100 + pat));
             }
+            // out-of-range grid: only subsets that contain an out-of-range position
+            if n <= nmax.min(6) && s.iter().any(|&j| j == 0 || j >= 6) {
+                for pat in 0..2 {
+                    items.push((s.clone(), 200 + pat));
+                }
+            }
         }
     }
     let perms: Vec<Vec<Vec<usize>>> = (0..=nmax).map(permutations).collect();
@@ -174,18 +185,27 @@ pub fn run(run: Run) -> ! {
         Acc::default,
         |i, acc| {
             let (sub, pat) = &items[i];
-            let grid: &[f32; 9] = if *pat >= 100 { &DENSE9 } else { &GRID9 };
+            let grid: &[f32; 9] = if *pat >= 200 { &OUT9 } else if *pat >= 100 { &DENSE9 } else { &GRID9 };
             let positions: Vec<f32> = sub.iter().map(|&j| grid[j]).collect();
             let n = positions.len();
             let asc = decorate(&positions, *pat);
             let ti = i % thetas.len();
             let th = thetas[ti];
             let base_spec = TlSpec { kfs: asc.clone(), default_easing: if pat % 2 == 0 { 0 } else { 3 }, timing: th };
-            let base = base_spec.build();
-            let mut base_s = base.clone();
-            base_s.start_with(&vs);
-            let want: Vec<[u64; 5]> = grids[ti].iter().map(|&t| eval_real(&base, t, &init).bits()).collect();
-            let want_s: Vec<[u64; 5]> = grids[ti].iter().map(|&t| eval_real(&base_s, t, &init).bits()).collect();
+            // (out-of-range family: if the library refuses such keyframes by panicking in the ascending build or
+            // evaluation, there is nothing to compare)
+            let Ok((base, base_s, want, want_s)) = std::panic::catch_unwind(std::panic::AssertUnwindSafe(|| {
+                let base = base_spec.build();
+                let mut base_s = base.clone();
+                base_s.start_with(&vs);
+                let want: Vec<[u64; 5]> = grids[ti].iter().map(|&t| eval_real(&base, t, &init).bits()).collect();
+                let want_s: Vec<[u64; 5]> = grids[ti].iter().map(|&t| eval_real(&base_s, t, &init).bits()).collect();
+                (base, base_s, want, want_s)
+            })) else {
+                acc.skipped_base_panics += 1;
+                return;
+            };
+            let _ = &base_s;
             for w in &want {
                 if acc.outcomes.len() < 4096 {
                     acc.outcomes.insert(w[0] ^ (w[1] << 32));
@@ -199,27 +219,33 @@ pub fn run(run: Run) -> ! {
                 }
                 acc.perms_differing_order += 1;
                 let spec = TlSpec { kfs: perm.iter().map(|&j| asc[j].clone()).collect(), ..base_spec.clone() };
-                let tl = spec.build();
-                let mut tls = tl.clone();
-                tls.start_with(&vs);
-                acc.timelines += 1;
                 let rank = (n as u64) << 48 | (pi as u64) << 24 | (i as u64 & 0xffffff);
+                let Ok((tl, tls)) = std::panic::catch_unwind(std::panic::AssertUnwindSafe(|| {
+                    let tl = spec.build();
+                    let mut tls = tl.clone();
+                    tls.start_with(&vs);
+                    (tl, tls)
+                })) else {
+                    acc.sink.add("build-panics-for-permuted-order", rank, || (format!("building with insertion order {perm:?} panics, the ascending order does not"), json!({"timeline": spec.to_json()})));
+                    continue;
+                };
+                acc.timelines += 1;
                 if meta(&tl) != bm {
                     acc.sink.add("metadata-differs", rank, || ("metadata depends on insertion order".into(), json!({"timeline": spec.to_json()})));
                 }
                 for (gi, &t) in grids[ti].iter().enumerate() {
                     acc.evals += 2;
-                    let g = eval_real(&tl, t, &init).bits();
-                    if g != want[gi] {
+                    let g = try_eval_real(&tl, t, &init).map(|g| g.bits());
+                    if g != Some(want[gi]) {
                         acc.sink.add("values-differ", rank, || {
                             (
-                                format!("t={t}: permuted insertion {:?} gives {:?}, ascending build gives {:?}", perm, eval_real(&tl, t, &init), eval_real(&base, t, &init)),
+                                format!("t={t}: permuted insertion {:?} gives {:?}, ascending build gives {:?}", perm, try_eval_real(&tl, t, &init), eval_real(&base, t, &init)),
                                 case_json(&spec, None, t, &init),
                             )
                         });
                     }
-                    let g = eval_real(&tls, t, &init).bits();
-                    if g != want_s[gi] {
+                    let g = try_eval_real(&tls, t, &init).map(|g| g.bits());
+                    if g != Some(want_s[gi]) {
                         acc.sink.add("values-differ-after-start_with", rank, || {
                             (format!("t={t}: permuted insertion {:?} after start_with differs from ascending build", perm), case_json(&spec, Some(&vs), t, &init))
                         });
@@ -235,6 +261,7 @@ pub fn run(run: Run) -> ! {
             a.timelines += b.timelines;
             a.evals += b.evals;
             a.perms_differing_order += b.perms_differing_order;
+            a.skipped_base_panics += b.skipped_base_panics;
             a.outcomes.extend(b.outcomes);
             if a.samples.len() < 3 {
                 a.samples.extend(b.samples);
@@ -250,7 +277,8 @@ pub fn run(run: Run) -> ! {
     cov.insert("traces_validated_against_impl".into(), json!(acc.evals));
     cov.insert("evaluations".into(), json!(acc.evals));
     cov.insert("distinct_nontrivial".into(), json!(acc.perms_differing_order));
-    cov.insert("rule".into(), json!(format!("every subset of 1..={nmax} distinct positions from {{0,1/8,..,1}} and from a dense grid {{0,.125,.126,.129,.131,.5,.501,.999,1}} (positions closer than 1%) x {npat} (+{}) content patterns (property subsets, per-keyframe easings) x ALL permutations of the insertion order (timing configuration cycled over the 6 of Theta) x {{plain, start_with}} x time grid; plus a WIDE family (2^j+1 keyframes, counts under wide_family_keyframe_counts, two property patterns, two timings) inserted in six structured orders (reversed, rotated, even-then-odd, bit-reversed, one adjacent swap, blocks of 7 reversed) at every keyframe position and segment midpoint; oracle: values bit-identical and metadata identical to the ascending-order build; non-trivial = non-identity permutations checked", (npat / 2).max(2))));
+    cov.insert("rule".into(), json!(format!("every subset of 1..={nmax} distinct positions from {{0,1/8,..,1}} and from a dense grid {{0,.125,.126,.129,.131,.5,.501,.999,1}} (positions closer than 1%), and - for up to 6 keyframes - from a grid with positions outside [0,1] {{-.5,0,.25,.5,.75,1,1.25,1.5,3}} x {npat} (+{}) content patterns (property subsets, per-keyframe easings) x ALL permutations of the insertion order (timing configuration cycled over the 6 of Theta) x {{plain, start_with}} x time grid; plus a WIDE family (2^j+1 keyframes, counts under wide_family_keyframe_counts, two property patterns, two timings) inserted in six structured orders (reversed, rotated, even-then-odd, bit-reversed, one adjacent swap, blocks of 7 reversed) at every keyframe position and segment midpoint; oracle: values bit-identical and metadata identical to the ascending-order build; non-trivial = non-identity permutations checked", (npat / 2).max(2))));
+    cov.insert("out_of_range_items_skipped_because_the_ascending_build_panics".into(), json!(acc.skipped_base_panics));
     cov.insert("exhaustive".into(), json!(true));
     cov.insert("distinct_observed_outcomes_capped".into(), json!(acc.outcomes.len()));
     cov.insert("samples".into(), json!(acc.samples));
